@@ -121,7 +121,7 @@ def rebuild_problems(poly):
         if tuple(back.shape) != tuple(poly.shape):
             out.append(f"rebuild from {label}: shape {back.shape} != {poly.shape}")
             continue
-        if back.dtype != poly.dtype:
+        if back.dtype != poly.dtype and back.dtype.newbyteorder("=") != poly.dtype.newbyteorder("="):
             out.append(f"rebuild from {label}: dtype {back.dtype} != {poly.dtype}")
         if tuple(back.names) != tuple(poly.names):
             out.append(f"rebuild from {label}: names {back.names} != {poly.names}")
